@@ -12,3 +12,4 @@ import GPy.C04.Props
 import GPy.C12.Props
 import GPy.C13.Props
 import GPy.C02.Props
+import GPy.C14.Props
